@@ -147,6 +147,22 @@ def rule_b(ctx):
     esc = K.field_escapes(P, PQ + "PriorityQueue", "next_epoch") + K.field_escapes(P, IPQ + "IndexedPriorityQueue", "next_epoch")
     ctx.ob("epoch-counter-not-borrowed-mutably", not esc,
            "no &mut / raw pointer to next_epoch is ever taken (the two `+= 1` assignments are its only writers)", esc or writers)
+    # the stored epoch has the width of the counter (a narrower field wraps after 2^32 insertions and breaks FIFO / key uniqueness)
+    def fty(adt, field):
+        a = P.adts.get(adt)
+        if not a:
+            return None
+        for v in a.get("variants", []):
+            for f in v.get("fields", []):
+                if f["name"] == field:
+                    return f["ty"]
+        return None
+    pairs = [(PQ + "PriorityQueue", PQ + "Item"), (IPQ + "IndexedPriorityQueue", IPQ + "UniqueKey"), (IPQ + "IndexedPriorityQueue", IPQ + "InsertKey")]
+    for owner, entry in pairs:
+        ct, et = fty(owner, "next_epoch"), fty(entry, "epoch")
+        ctx.ob("epoch-field-width|%s" % last_seg(entry), ct is not None and ct == et,
+               "the epoch stored in %s has the type of the counter it is copied from (%s vs %s): no truncation" % (last_seg(entry), et, ct),
+               ["adt %s" % entry, "adt %s" % owner])
     nb = ctx.body(PQ + "PriorityQueue::new")
     if nb:
         aggs = list(nb.aggregates(adt=PQ + "PriorityQueue"))
